@@ -1,5 +1,6 @@
 """C15 An input file builds exactly the documented object graph."""
 import ast
+import re
 import os
 
 from sa.helpers import (validated, guard_is, the_return, mkflow, spec, code, one, calls, bind_call, param_env,
@@ -404,9 +405,12 @@ def gas_hook(ix, R):
     why = []
     for g in e.guards:
         t = g.text()
-        node = g.node.test if hasattr(g.node, 'test') else None
-        if node is not None and isinstance(node, ast.Call) and unparse(node.func) == 'isinstance' and len(node.args) == 2:
-            names = [x.id for x in ast.walk(node.args[1]) if isinstance(x, ast.Name)]
+        ca, flip = fl.tab.canon_cond(g.rf) if g.rf is not None else (None, False)
+        at = atom_of(fl, ca) if ca is not None else None
+        pos = g.positive != flip
+        fn = at.extra[0] if at is not None and at.head == 'call' and at.extra else None
+        if fn == 'fn:isinstance' and len(at.args) == 2:
+            names = re.findall(r'[A-Za-z_][A-Za-z_0-9]*', fmt(fl, at.args[1]))
             tested = []
             for nm in names:
                 try:
@@ -414,10 +418,9 @@ def gas_hook(ix, R):
                 except AnalysisError:
                     pass
             left = [c.name for c in owners if not any(ix.is_subclass(c, t_) for t_ in tested)]
-            if left and g.positive:
+            if left and pos:
                 why.append('gases are added only if %s; %s also define addGas and are left without their gases' % (t, left))
-        elif node is not None and isinstance(node, ast.Call) and unparse(node.func) == 'hasattr' and \
-                len(node.args) == 2 and unparse(node.args[1]) == "'addGas'" and g.positive:
+        elif fn == 'fn:hasattr' and len(at.args) == 2 and fmt(fl, at.args[1]).strip('\'"') == 'addGas' and pos:
             continue
         elif not validated(g):
             R.error('3.chem.gases', 'DOM', site, stmt, 'addGas under a condition this rule does not know: %s' % t, loc=f.loc())
